@@ -9,7 +9,7 @@ Decided structurally (Unix path semantics assumed):
      predicate on ".."), so a `..` component can never be appended.
  L3  the loader maps an I/O error to "missing" (Ok(None)) only under `err.kind() == NotFound`.
 """
-from .. import cfg, flow
+from .. import cfg, flow, inline
 from ..facts import op_place, CheckerBroken
 
 SAFE_JOIN = "minijinja::loader::safe_join"
@@ -18,10 +18,14 @@ PUSH = "std::path::PathBuf::push"
 STR = "core::str::<impl str>::"
 
 
-def eval_pred_on(call, text, fn):
+def eval_pred_on(call, text, fn, prog=None, depth=0):
     """value of a recognised string predicate applied to the constant `text`; None when not recognised"""
     n = call.name
     args = call.args
+    if prog is not None and n in prog.fns and prog.fns[n].kind != "closure" and len(args) == 1 and \
+            prog.fns[n].locals[0].get("s") == "bool":
+        # a predicate of the program itself (`is_forbidden_segment(segment)`)
+        return eval_fn_on(prog, prog.fns[n], text, depth)
     if n.startswith(STR):
         m = n[len(STR):]
         if m == "is_empty":
@@ -64,6 +68,117 @@ def eval_pred_on(call, text, fn):
     return None
 
 
+
+def eval_fn_on(prog, g, text, depth=0):
+    """value of a program predicate `fn(&str) -> bool` on the constant `text`: its CFG is walked with the recognised
+    string predicates on its parameter evaluated on `text`; None when something on the way is not recognised"""
+    if depth > 2 or g is None or g.argc < 1:
+        return None
+    env = {}
+    bb = 0
+    for _ in range(200):
+        for st in g.stmts(bb):
+            if st["k"] != "assign" or "p" in st["place"]:
+                continue
+            rv = st["rv"]
+            l = st["place"]["l"]
+            if rv["k"] == "use":
+                c = rv["op"].get("c")
+                if c is not None and "int" in c:
+                    env[l] = bool(int(c["int"]))
+                else:
+                    p = op_place(rv["op"])
+                    if p is not None and "p" not in p and p["l"] in env:
+                        env[l] = env[p["l"]]
+                    else:
+                        env.pop(l, None)
+            elif rv["k"] == "un" and rv.get("op") == "Not":
+                p = op_place(rv["a"])
+                if p is not None and p["l"] in env:
+                    env[l] = not env[p["l"]]
+                else:
+                    env.pop(l, None)
+            else:
+                env.pop(l, None)
+        t = g.term(bb)
+        k = t["k"]
+        if k == "return":
+            return env.get(0)
+        if k == "goto" or k == "drop":
+            bb = t["t"]
+            continue
+        if k == "call":
+            c = next((x for x in g.calls() if x.bb == bb), None)
+            if c is None or "t" not in t:
+                return None
+            v = None
+            if c.args and any(o.kind == "arg" and o.arg == g.argc - 0 or o.kind == "arg" for o in flow.origins(g, c.args[0])):
+                v = eval_pred_on(c, text, g, prog, depth + 1)
+            d = t.get("dest")
+            if d is not None and "p" not in d:
+                if v is not None:
+                    env[d["l"]] = v
+                else:
+                    env.pop(d["l"], None)
+            bb = t["t"]
+            continue
+        if k == "switch":
+            p = op_place(t["discr"])
+            if p is None or "p" in p or p["l"] not in env:
+                return None
+            val = "1" if env[p["l"]] else "0"
+            listed = {x: y for x, y in t["arms"]}
+            bb = listed.get(val, t["otherwise"])
+            continue
+        return None
+    return None
+
+
+
+def _split_of(sj, op):
+    """(origin keys of the string, separator) when the operand is `str::split(string, '<char>')`, else None"""
+    for o in flow.origins(sj, op, through_calls=lambda k: 0 if k.name.endswith("::into_iter") else None):
+        if o.kind == "call" and o.call.name == STR + "split" and len(o.call.args) > 1:
+            sep = o.call.args[1].get("c", {})
+            if sep.get("ty") == "char" and "int" in sep:
+                return frozenset(x.key() for x in flow.origins(sj, o.call.args[0])), sep["int"]
+    return None
+
+
+def _extend_of_validated_split(prog, sj, c):
+    if not c.name.endswith("::extend") or len(c.args) < 2:
+        return False
+    what = _split_of(sj, c.args[1])
+    if what is None or what[1] != "47":
+        return False
+    for (sb, taken) in flow.guards(sj, c.bb):
+        cd = flow.cond_of(sj, sb)
+        if cd.kind != "call" or not cd.call.name.endswith("Iterator::any") or len(cd.call.args) < 2:
+            continue
+        if _split_of(sj, cd.call.args[0]) != what:
+            continue
+        side = flow.bool_true_labels(taken)
+        if side is None or (side != cd.neg):
+            continue            # the extend must sit on the side where no segment was forbidden
+        # the predicate: a function item or a closure of one &str argument
+        pred = None
+        a = cd.call.args[1]
+        cst = a.get("c")
+        if cst is not None and "fn" in cst:
+            from ..facts import norm_path
+            pred = prog.fns.get(norm_path(cst["fn"]))
+        for o in flow.origins(sj, a):
+            if o.kind == "agg" and o.rv.get("closure"):
+                from ..facts import norm_path
+                pred = prog.fns.get(norm_path(o.rv["closure"]))
+            if o.kind == "const" and o.const is not None and "fn" in o.const:
+                from ..facts import norm_path
+                pred = prog.fns.get(norm_path(o.const["fn"]))
+        if pred is not None and eval_fn_on(prog, pred, "..") is True:
+            return True
+    return False
+
+
 def check_safe_join(ctx, prog, fn_path, floor=True):
     sj = prog.fn(fn_path)
     pushes = sj.calls_to(PUSH)
@@ -95,7 +210,19 @@ def check_safe_join(ctx, prog, fn_path, floor=True):
                "%s grows a path but does not return `Some(path)` built from `base.to_path_buf()`: the path that is read is "
                "not a fresh copy of the base directory extended by guarded segments (a shared or caller-supplied buffer "
                "can drift away from the base between lookups)" % fn_path.split("::")[-1], sj.loc)
+    validated = []
     for c in growers:
+        if c.name != PUSH and _extend_of_validated_split(prog, sj, c):
+            # the two-pass form: every `/`-separated segment was inspected first (`split('/').any(forbidden)` left the
+            # function), then the very same split is appended
+            validated.append(c)
+            ctx.ob("C17.L2.dotdot-guard", "%s|extend cannot append '..'" % fn_path, True,
+                   "every segment of template.split('/') was tested by a predicate that holds for '..' before the same "
+                   "split is appended", sj.where(c.bb))
+            ctx.ob("C17.L2.segment-source", "%s|extend appends split('/')" % fn_path, True, "", sj.where(c.bb))
+    for c in growers:
+        if c in validated:
+            continue
         # any other mutator of the path: its components are not the guarded segment
         if c.name != PUSH:
             ctx.ob("C17.L2.mutator", "%s|%s" % (fn_path, c.name.split("::")[-1]), False,
@@ -134,7 +261,7 @@ def check_safe_join(ctx, prog, fn_path, floor=True):
             other = {o.key() for a in cd.call.args[1:] for o in flow.origins(sj, a)} if len(cd.call.args) > 1 else set()
             if not ((recv | other) & seg_keys):
                 continue
-            v = eval_pred_on(cd.call, "..", sj)
+            v = eval_pred_on(cd.call, "..", sj, prog)
             side = flow.bool_true_labels(taken)
             seen.append((cd.call.name, v, side))
             if v is None or side is None:
@@ -159,13 +286,28 @@ def joiners(prog):
     return sorted(out)
 
 
+def loader_view(prog, f):
+    """the loader closure with the private helpers parts of it may have been moved into spliced in (`read_template_source`)"""
+    keep = set(joiners(prog)) | {"read_to_string", "kind", "eq", "ne", "push", "split", "join"}
+    return inline.view(prog, f, keep=keep)
+
+
 def check_fs_calls(ctx, prog, allowed_root, floor=True):
     n = 0
     inside = 0
-    for f in prog.fns.values():
+    views = {f.path: loader_view(prog, f) for f in prog.fns.values() if f.kind == "closure" and f.root == allowed_root}
+    spliced = set()
+    for v in views.values():
+        spliced |= set(inline.inlined_helpers(v))
+    todo = list(views.values()) + [f for f in prog.fns.values() if f.path not in views]
+    for f in todo:
         for c in f.calls():
             nm = c.path or ""
             if c.krate == "std" and nm.startswith("std::fs::"):
+                if f.path in spliced and f.path not in views:
+                    sites = prog.callers().get(f.path, [])
+                    if not f.is_pub and sites and all(k.fn.path in views for k in sites):
+                        continue        # a private helper of the loader closure: checked as part of the closure above
                 n += 1
                 ok = f.root == allowed_root and f.kind == "closure"
                 ctx.ob("C17.L1.who-may-call", "%s|%s" % (f.path, nm), ok,
@@ -174,7 +316,10 @@ def check_fs_calls(ctx, prog, allowed_root, floor=True):
                     inside += 1
                     # the path argument is the Some payload of safe_join
                     good = False
-                    os_ = flow.origins(f, c.args[0]) if c.args else []
+                    # (a borrow of the joined PathBuf as a `&Path` is still that path)
+                    thru = lambda k: 0 if (k.name.endswith("::deref") or k.name.endswith("::as_ref") or k.name.endswith("::as_path")
+                                           or k.name.endswith("::borrow")) else None
+                    os_ = flow.origins(f, c.args[0], through_calls=thru) if c.args else []
                     for o in os_:
                         if o.kind == "call" and o.call.name in joiners(prog) and "as Some" in o.proj:
                             good = True
@@ -195,7 +340,7 @@ def check_fs_calls(ctx, prog, allowed_root, floor=True):
 
 
 def check_notfound(ctx, prog, floor=True):
-    cl = [f for f in prog.closures_of(PATH_LOADER)]
+    cl = [loader_view(prog, f) for f in prog.closures_of(PATH_LOADER)]
     ctx.need(cl or not floor, "C17: path_loader has no closure")
     n = 0
     for f in cl:
